@@ -336,7 +336,7 @@ struct Wide {
     static void run(Words& w, Outcome& o, std::string* d)
     {
         int op = int(draw_small(w, 0, N_OPS - 1));
-        mpz_class za = draw_mpz(w, D, is_signed), zb = draw_mpz(w, D, is_signed);
+        mpz_class za = draw_mpz(w, D, is_signed, true), zb = draw_mpz(w, D, is_signed, true);
         unsigned n = unsigned(w.next());
         if (op == SHL || op == SHR) n = n % unsigned(W);
         if (op == DIV || op == MOD || op == A_DIV || op == A_MOD) {
